@@ -15,7 +15,13 @@ fn budget(t: Tier) -> u64 {
 pub const Y9999: u64 = 253_402_300_799;
 
 pub fn pick_midp_secs(rng: &mut Rng) -> u64 {
-    match rng.below(7) {
+    match rng.below(8) {
+        // the second before, at and after a daylight-saving change of one of the zones with rules
+        7 => {
+            let z = r::time::ZONES[7 + rng.below(3) as usize];
+            let (a, b) = z.changes(*rng.pick(&[1999i64, 2026, 2026, 2038, 2400, 9998])).unwrap();
+            ((if rng.chance(1, 2) { a } else { b }) + rng.below(3) as i64 - 1) as u64
+        }
         0 => rng.below(3),
         1 => 2_147_483_646 + rng.below(4),
         2 => 4_294_967_294 + rng.below(4),
@@ -167,13 +173,11 @@ fn gen(seed: u64, idx: u64, _tier: Tier) -> Plan {
     plan
 }
 
-/// Time zones a machine may be set to, as fixed-offset POSIX strings, with their offset east of
-/// UTC in seconds.
-pub const ZONES: [(&str, i64); 7] = [("UTC", 0), ("JST-9", 32_400), ("IST-5:30", 19_800), ("EST5", -18_000), ("NST3:30", -12_600), ("<+14>-14", 50_400), ("<-12>12", -43_200)];
-
+/// One run in two: the machine is in one of the reference formatter's time zones (fixed offsets
+/// and three with daylight-saving rules), given as a POSIX TZ string.
 pub fn pick_zone(rng: &mut Rng, plan: &mut Plan) {
     if rng.chance(1, 2) {
-        plan.world.tz = Some(ZONES[rng.below(ZONES.len() as u64) as usize].0.to_string());
+        plan.world.tz = Some(r::time::ZONES[rng.below(r::time::ZONES.len() as u64) as usize].tz.to_string());
     }
 }
 
@@ -186,8 +190,9 @@ fn expected_line(argv: &[String], proto: r::Proto, midp: u64, tz: Option<&str>) 
     if has_flag(argv, "-z") {
         return r::time::format_utc(secs, nanos, fmt);
     }
-    // the local clock: the same instant at the machine's offset; chrono prints a local %Z as +hh:mm
-    let off = ZONES.iter().find(|z| Some(z.0) == tz).map(|z| z.1).unwrap_or(0);
+    // the local clock: the same instant at the offset in force at that instant; chrono prints a
+    // local %Z as +hh:mm
+    let off = r::time::Zone::by_tz(tz).offset_at(secs as i64);
     let zone = format!("{}{:02}:{:02}", if off < 0 { '-' } else { '+' }, off.abs() / 3600, off.abs() % 3600 / 60);
     r::time::format_at(secs, nanos, fmt, off, &zone)
 }
